@@ -94,6 +94,10 @@ func (*BytecodeCompiler).compileContinueExpressionNode
   ensures ghostdef mono: clen(c) >= old(clen(c))
   ensures ghostdef jkeep: forall k mathint :: jkey(c, 0) <= k && k < jkey(c, old(clen(c))) ==> ghost(jdepth, k) == old(ghost(jdepth, k))
   assert before emitJump#1: c.additionalAbortChecks ==> c.lastOpCode == bytecode.CHECK_ABORT
+  // a continue that first runs `finally` blocks goes back to the loop start as well (the VM
+  // jumps there after the last handler): the check sits in front of the whole sequence
+  assert before emitLoadValue#1: c.additionalAbortChecks ==> c.lastOpCode == bytecode.CHECK_ABORT
+
 // ---- nested compilers carry the flag ---------------------------------------------------------
 // Method bodies, closures, go blocks, defer blocks and namespace bodies are compiled by
 // compilers of their own.  A nested compiler that does not carry the abort-check flag of the
